@@ -32,7 +32,12 @@ func main() {
 			cases, steps = 80, 120
 		}
 		for c := 0; c < cases; c++ {
-			s := ringh.NewSession(run, rng)
+			backend := "memory"
+			if c%3 == 2 {
+				backend = "sqlite"
+			}
+			s := ringh.NewSessionBackend(run, rng, backend)
+			defer s.R.Close()
 			before := run.Dist["op:join"] + run.Dist["op:leave"]
 			s.Churn(1+rng.Intn(5), 1+rng.Intn(4), steps)
 			key := ""
